@@ -18,7 +18,7 @@ import traceback
 from . import tlc as T
 
 VERIF = T.VERIF
-REPO = "/repo"
+REPO = os.environ.get("VERIF_REPO_OVERRIDE", "/repo")  # override only for mutation self-tests
 GUARD = "TECKI_EBPFCAT_VERIF"
 
 
